@@ -450,6 +450,12 @@ def useParallel (cfg : Cfg) (p : Probe) : Bool :=
   | some n => contains "bytes".toList (lowerAscii p.acceptRanges) && cmpNat Gen.Fetch.parallelCmp n cfg.parallelThreshold
       && (!Gen.Fetch.parallelNonEmpty || decide (n > 0))
 
+/-- the guard "reject before downloading": a declared size above `max_fetch_bytes` -/
+def declaredOver (cfg : Cfg) (p : Probe) : Bool :=
+  match p.len with
+  | some n => cmpNat Gen.Fetch.declaredGuard n cfg.maxFetch
+  | none => false
+
 /-- `_fetch_with_probe` up to (not including) the decode step: the encoded bytes and the codec header that applies -/
 def fetchEncoded {σ : Type} (env : Env) (o : Origin σ) (cfg : Cfg) (sched : List Nat) (s : σ) (url : Url) :
     Out σ (Bytes × List Char) :=
@@ -457,7 +463,7 @@ def fetchEncoded {σ : Type} (env : Env) (o : Origin σ) (cfg : Cfg) (sched : Li
   match p.val with
   | .error e => ⟨.error e, p.tr, p.st⟩
   | .ok pr =>
-    if (match pr.len with | some n => cmpNat Gen.Fetch.declaredGuard n cfg.maxFetch | none => false) then
+    if declaredOver cfg pr then
       ⟨.error .declaredTooLarge, p.tr, p.st⟩
     else if useParallel cfg pr then
       let d := fetchChunks env o cfg sched p.st url (pr.len.getD 0)
